@@ -346,6 +346,8 @@ def run(prog, rep):
     rep.attempt(PR.tdftype_primitives, prog, rep)
     from ..staging import staging_dtypes
     rep.attempt(staging_dtypes, prog, rep)
+    from ..staging import constructor_dtypes
+    rep.attempt(constructor_dtypes, prog, cd, rep)
     rep.attempt(PR.string_codec, prog, rep)
     rep.attempt(PR.date_codec, prog, rep)
     # decoders attach items to their channel through the add method: an explicit channel must be honoured
